@@ -276,6 +276,7 @@ def main(argv):
         print("note: unexpected side effects observed: %s" % sorted(m["side_effects"]))
     if unlisted:
         first = None
+        shown = 0
         for mech in sorted(unlisted, key=lambda k: (unlisted[k]["size"], k)):
             v = unlisted[mech]
             hh = hashlib.sha1(mech.encode()).hexdigest()[:10]
@@ -283,11 +284,15 @@ def main(argv):
             with open(os.path.join(HERE, path), "w") as f:
                 json.dump({"property": prop, "mechanism": mech, "witness": v["witness"], "detail": v["detail"],
                            "seed": seed, "tier": tier, "count": v["count"], "mode": v.get("mode")}, f, indent=1, ensure_ascii=False)
-            print("violation: mechanism=%s count=%d witness=%s detail=%s" % (
-                mech, v["count"], json.dumps(v["witness"], ensure_ascii=False)[:300], json.dumps(v["detail"], ensure_ascii=False)[:400]))
+            if shown < 15:
+                print("violation: mechanism=%s count=%d witness=%s detail=%s" % (
+                    mech, v["count"], json.dumps(v["witness"], ensure_ascii=False)[:300], json.dumps(v["detail"], ensure_ascii=False)[:400]))
+            shown += 1
             if first is None:
                 first = path
-        for mech in sorted(unlisted, key=lambda k: (unlisted[k]["size"], k)):
+        if shown > 15:
+            print("... %d more violating mechanisms (replay files written for all; see evidence/%s.json violating_mechanisms)" % (shown - 15, prop))
+        for mech in sorted(unlisted, key=lambda k: (unlisted[k]["size"], k))[:8]:
             hh = hashlib.sha1(mech.encode()).hexdigest()[:10]
             print("VIOLATION property=%s replay=%s" % (prop, os.path.join("replay", "%s-%s.json" % (prop, hh))))
         return 1
